@@ -33,7 +33,12 @@ func init() {
 		Rule: "history = generated sequence over {bootstrap, rotate, wipeout ca|keys|all} with common-name, serial-override, timestamp and overwrite / keep-going flags, over every shipped combination of key manager (memkm, localkm) and certificate authority (memca, gcsca on memory and on storage/local). " +
 			"After EVERY command the authority is read back like a fresh process and the invariants are evaluated: root = self-signed CA with certSign and a 9131-day lifetime; each signing certificate created = non-CA, digitalSignature, PSS/SHA-256, issued by and verifying under the stored root, valid 1826 days from the command's timestamp, certificate serial == subject serial == predecessor+1 unless overridden; " +
 			"only the primary (and the root) can sign among the key names of the current epoch; rotate creates a fresh name; certificate objects present before a command without overwrite are byte-identical after it; after wipeout no key signs / no certificate resolves. " +
-			"Epoch = since the last successful bootstrap or wipeout. non-trivial = distinct (assembly, command kind, flags, outcome, position-in-epoch) cells",
+			"Epoch = since the last successful bootstrap or wipeout. non-trivial = distinct (assembly, command kind, flags, outcome, position-in-epoch) cells. " +
+			"Appended families, judged by the same rules (ext.go): kept = one process keeps ONE manager / signer / authority value, ONE keys+output context and ONE request struct per command kind for the whole history and the invariants are also evaluated through the kept signer and authority; " +
+			"pair = two authorities operated in one process at once (free-running goroutines, or handed over at every key-manager / signer / authority call and meeting where both ask for a certificate template); " +
+			"flags = the command line with flags left unset, spelled as their documented default (--rotated_key_serial_override=0), --f v / --f=v, --b / --b=true / --b=false, every overwrite x keep-going pair; " +
+			"bounds = common names of length 0 / 1 / 64 / 200, with DN or path meta characters, equal to the root's; timestamps on the first and last instants of the root's validity; re-bootstraps replacing stored objects by much shorter / longer ones; " +
+			"serials = 14 serial numbers next to DER, 32/64-bit and 20-octet boundaries, each followed by a default rotation; chain = more than ten rotations in one epoch",
 		Assumptions: []string{"freshness of names and 'only the primary signs' are scoped to the current epoch: after bootstrap --overwrite the previous epoch's last key legitimately survives",
 			"timestamps are whole seconds inside the root's validity; RSA keys are 2048-bit nonprod keys"},
 		ShardsQuick: 8, ShardsThor: 16, TimeoutS: 900, TimeoutThor: 3600, Run: run,
